@@ -14,6 +14,9 @@
     within half a unit (inclusive) of the precision (a full unit for ellipse axes), and the second
     cycle must be exact; all bundled .reg files go through parse -> serialise -> parse.  The
     recorded numbers are validated by Trace_Ds9Write.tla.
+(D) Ds9Visual.tla (see engines/ds9visual.py): the DS9 <-> matplotlib translation of visual properties transcribed
+    case by case, model-checked over 8 shapes x 10 368 property combinations, every state replayed through the
+    real reader and writer.
 """
 import glob
 import json
@@ -436,6 +439,8 @@ def run(ctx):
     tlc.cleanup(res.workdir)
     bundled_files(ctx)
     foreign_text(ctx)
+    from . import ds9visual
+    ds9visual.run(ctx)
     trace_validation(ctx)
     ctx.assumptions += ['half-unit tolerance is inclusive (Python formats 11.25 at one decimal as 11.2); ellipse axes are written as semi-axes, so a full unit',
                         'foreign text (bundled files) is required to be a fixed point from the second cycle on; the first re-parse can only agree within the precision']
